@@ -1,5 +1,5 @@
 //@unit scan
-//@property C03
+//@property C03,C17
 // "Compiling any source text - valid, truncated, garbled ... or containing arbitrary Unicode - terminates ... it never
 // panics": the scanner half (yarel/src/scanner.rs, every function of `impl Scanner`). For every source text (any valid
 // UTF-8 String) and every scanner state reachable from `from_source`, `scan_token` returns: no `str` slice off a
@@ -116,6 +116,7 @@ pub broadcast axiom fn axiom_utf8_char(s: SrcText, i: int)
         &&& !(0x80 <= b < 0xC2) && b <= 0xF4
         &&& i + w <= s.blen() && s.is_cb(i + w)
         &&& forall|j: int| i < j < i + w ==> !s.is_cb(j)
+        &&& forall|j: int| i < j < i + w ==> s.bytes()[j] >= 0x80     // continuation bytes are 0x80..0xBF
     });
 
 // the character starting at boundary i ends at r: next boundary, nothing in between (r == len at the end of the text)
@@ -128,6 +129,44 @@ pub proof fn lemma_char_end_unique(s: SrcText, i: int, r1: int, r2: int)
 {
     if i < s.blen() { if r1 < r2 { assert(!s.is_cb(r1)); } else if r2 < r1 { assert(!s.is_cb(r2)); } }
 }
+// ---- line counting: the number of line feeds among the first i bytes
+pub open spec fn nl(s: SrcText, i: int) -> int
+    decreases i
+{
+    if i <= 0 { 0 } else { nl(s, i - 1) + (if s.bytes()[i - 1] == 0x0Au8 { 1int } else { 0int }) }
+}
+// the character at boundary i is a line feed
+pub open spec fn lf_at(s: SrcText, i: int) -> bool { 0 <= i < s.blen() && s.bytes()[i] == 0x0Au8 }
+// one character [i, r): it contributes one line feed iff it IS the line-feed character (every other byte of any
+// character is either its own non-LF ASCII byte or >= 0x80)
+pub proof fn lemma_nl_char(s: SrcText, i: int, r: int)
+    requires 0 <= i < s.blen(), s.is_cb(i), char_end(s, i, r)
+    ensures nl(s, r) == nl(s, i) + (if lf_at(s, i) { 1int } else { 0int }), lf_at(s, i) ==> r == i + 1
+{
+    broadcast use axiom_utf8_char;
+    let w = utf8_width(s.bytes()[i]);
+    assert(s.is_cb(i + w));
+    if r < i + w { assert(!s.is_cb(r)); } else if r > i + w { assert(!s.is_cb(i + w)); }
+    assert(r == i + w);
+    lemma_nl_tail(s, i, r);
+}
+// bytes i+1 .. r-1 of a character are >= 0x80: no line feed among them
+pub proof fn lemma_nl_tail(s: SrcText, i: int, r: int)
+    requires 0 <= i < r <= s.blen(), forall|j: int| i < j < r ==> s.bytes()[j] >= 0x80
+    ensures nl(s, r) == nl(s, i) + (if s.bytes()[i] == 0x0Au8 { 1int } else { 0int })
+    decreases r - i
+{
+    if r == i + 1 { assert(nl(s, r) == nl(s, r - 1) + (if s.bytes()[r - 1] == 0x0Au8 { 1int } else { 0int })); }
+    else { lemma_nl_tail(s, i, r - 1); assert(s.bytes()[r - 1] >= 0x80); assert(nl(s, r) == nl(s, r - 1) + (if s.bytes()[r - 1] == 0x0Au8 { 1int } else { 0int })); }
+}
+pub proof fn lemma_nl_mono(s: SrcText, a: int, b: int)
+    requires 0 <= a <= b
+    ensures nl(s, a) <= nl(s, b) <= nl(s, a) + (b - a)
+    decreases b - a
+{
+    if a < b { lemma_nl_mono(s, a, b - 1); }
+}
+
 pub open spec fn ascii_alnum(b: u8) -> bool { (0x30 <= b <= 0x39) || (0x41 <= b <= 0x5a) || (0x61 <= b <= 0x7a) || b == 0x5f }
 pub open spec fn all_ascii(s: SrcText, a: int, b: int) -> bool { forall|k: int| a <= k < b ==> #[trigger] s.bytes()[k] < 0x80 }
 // a run of ASCII bytes starting at a boundary consists of one-byte characters: every position is a boundary
@@ -173,14 +212,21 @@ impl Scanner {
         &&& self.line <= self.current + 1
         &&& forall|i: int| 0 <= i < self.parantheses@.len() ==> 1 <= #[trigger] self.parantheses@[i] <= self.current + 1
     }
+    // the line counter counts the line feeds consumed so far (C17: the line a token — and a compile error — is reported at)
+    pub open spec fn lines_ok(&self) -> bool { self.line == 1 + nl(self.source, self.current as int) }
     // nothing but the cursor moved, and it moved forwards
+    // nothing but the cursor and the line counter moved, both forwards
+    pub open spec fn cursor_and_line_only(&self, o: &Scanner) -> bool {
+        o.source == self.source && o.start == self.start && o.line >= self.line && o.parantheses == self.parantheses && o.current >= self.current
+    }
     pub open spec fn cursor_only(&self, o: &Scanner) -> bool {
         o.source == self.source && o.start == self.start && o.line == self.line && o.parantheses == self.parantheses && o.current >= self.current
     }
 
-    //@fn file=yarel/src/scanner.rs path=Scanner::from_source ret=r
+    //@fn file=yarel/src/scanner.rs path=Scanner::from_source ret=r props=C03,C17
     //@  sig "source: String" => "source: SrcText"
     //@  ensures r.wf(), r.source == source
+    //@  ensures @a_new_scanner_stands_on_line_one r.lines_ok()
     //@  at body.start broadcast use axiom_cb_ends;
     //@end
     //@fn file=yarel/src/scanner.rs path=Scanner::get_next_char_boundary ret=r
@@ -194,14 +240,18 @@ impl Scanner {
     //@fn file=yarel/src/scanner.rs path=Scanner::is_at_end ret=r
     //@  ensures r == (self.current >= self.source.blen())
     //@end
-    //@fn file=yarel/src/scanner.rs path=Scanner::advance ret=r
+    //@fn file=yarel/src/scanner.rs path=Scanner::advance ret=r props=C03,C17
     //@  rewrite R8
     //@  sig "-> &str" => "-> StrSlice"
     //@  subst "str_slice(self.source," => "str_slice(&self.source,"
     //@  requires old(self).cur_ok()
     //@  ensures final(self).cur_ok(), old(self).cursor_only(final(self)), char_end(old(self).source, old(self).current as int, final(self).current as int)
     //@  ensures r.src() == old(self).source && r.a() == old(self).current && r.b() == final(self).current
+    //@  ensures @a_consumed_character_adds_a_line_feed_iff_it_is_one nl(old(self).source, final(self).current as int) == nl(old(self).source, old(self).current as int) + (if lf_at(old(self).source, old(self).current as int) { 1int } else { 0int })
     //@  at body.start broadcast use axiom_cb_ends;
+    //@  ensures lf_at(old(self).source, old(self).current as int) <==> (final(self).current == old(self).current + 1 && old(self).source.bytes()[old(self).current as int] == 0x0Au8)
+    //@  ensures @advance_hands_out_a_line_feed_exactly_at_a_line_feed lf_at(old(self).source, old(self).current as int) <==> r@ =~= seq![0x0Au8]
+    //@  at body.tail proof { broadcast use axiom_bytes_len; if old(self).current < old(self).source.blen() { lemma_nl_char(old(self).source, old(self).current as int, self.current as int); let sub = old(self).source.bytes().subrange(old(self).current as int, self.current as int); assert(sub.len() == self.current - old(self).current); if sub =~= seq![0x0Au8] { assert(sub[0] == 0x0Au8); } } }
     //@end
     //@fn file=yarel/src/scanner.rs path=Scanner::peek ret=r
     //@  rewrite R8
@@ -209,7 +259,10 @@ impl Scanner {
     //@  subst "str_slice(self.source," => "str_slice(&self.source,"
     //@  requires self.cur_ok()
     //@  ensures r.src() == self.source && r.a() == self.current && char_end(self.source, self.current as int, r.b())
+    //@  ensures lf_at(self.source, self.current as int) <==> (r.b() == self.current + 1 && self.current < self.source.blen() && self.source.bytes()[self.current as int] == 0x0Au8)
     //@  at body.start broadcast use axiom_cb_ends;
+    //@  ensures @peek_sees_a_line_feed_exactly_at_a_line_feed lf_at(self.source, self.current as int) <==> r@ =~= seq![0x0Au8]
+    //@  at body.tail proof { if self.current < self.source.blen() { lemma_nl_char(self.source, self.current as int, slice_end as int); broadcast use axiom_bytes_len; assert(self.source.bytes().subrange(self.current as int, slice_end as int).len() == slice_end - self.current); if self.source.bytes().subrange(self.current as int, slice_end as int) =~= seq![0x0Au8] { assert(self.source.bytes().subrange(self.current as int, slice_end as int)[0] == 0x0Au8); } } else { broadcast use axiom_bytes_len; } }
     //@end
     //@fn file=yarel/src/scanner.rs path=Scanner::peek_next ret=r
     //@  rewrite R8
@@ -223,14 +276,16 @@ impl Scanner {
     //@  at body.start broadcast use axiom_cb_ends;
     //@end
 
-    //@fn file=yarel/src/scanner.rs path=Scanner::match_char ret=r
+    //@fn file=yarel/src/scanner.rs path=Scanner::match_char ret=r props=C03,C17
     //@  rewrite R8 R29
     //@  sig "expected: &str" => "expected: LitStr"
     //@  subst "str_slice(self.source," => "str_slice(&self.source,"
     //@  requires old(self).cur_ok()
     //@  ensures final(self).cur_ok(), old(self).cursor_only(final(self))
     //@  ensures !r ==> final(self).current == old(self).current
-    //@  at body.start broadcast use axiom_cb_ends;
+    //@  ensures @matching_a_character_that_is_no_line_feed_keeps_the_line_count (old(self).lines_ok() && expected.bytes().len() >= 1 && expected.bytes()[0] != 0x0Au8) ==> final(self).lines_ok()
+    //@  at body.start broadcast use axiom_cb_ends; broadcast use axiom_bytes_len;
+    //@  before_stmt "self.current = next;" proof { lemma_nl_char(self.source, self.current as int, next as int); let sub = self.source.bytes().subrange(self.current as int, next as int); assert(sub.len() == next - self.current); assert(sub[0] == self.source.bytes()[self.current as int]); }
     //@end
 
     //@fn file=yarel/src/scanner.rs path=Scanner::make_token ret=r
@@ -244,17 +299,22 @@ impl Scanner {
     //@  subst "String::from(message)" => "owned_from(message)"
     //@  ensures r.kind is Error
     //@end
-    //@fn file=yarel/src/scanner.rs path=Scanner::binary_token ret=r
+    //@fn file=yarel/src/scanner.rs path=Scanner::binary_token ret=r props=C03,C17
     //@  ensures r.kind == bare_kind || r.kind == assign_kind
+    //@  ensures old(self).lines_ok() ==> final(self).lines_ok()
     //@  rewrite R28
     //@  requires old(self).wf()
     //@  ensures final(self).wf(), old(self).cursor_only(final(self))
     //@end
 
     // Whitespace and `//` comments: terminates for every text; only the cursor and the line counter move
-    //@fn file=yarel/src/scanner.rs path=Scanner::skip_whitespace
+    //@fn file=yarel/src/scanner.rs path=Scanner::skip_whitespace props=C03,C17
     //@  rewrite R27 R29 R28
     //@  requires old(self).wf()
+    //@  ensures @skipped_line_feeds_are_counted old(self).lines_ok() ==> final(self).lines_ok()
+    //@  ensures @whitespace_skipping_stops_before_something_that_is_no_line_feed !lf_at(final(self).source, final(self).current as int)
+    //@  loop 0 invariant old(self).lines_ok() ==> self.lines_ok()
+    //@  loop 1 invariant old(self).lines_ok() ==> self.lines_ok()
     //@  ensures final(self).wf(), final(self).source == old(self).source, final(self).start == old(self).start, final(self).parantheses == old(self).parantheses, final(self).current >= old(self).current
     //@  loop 0 invariant self.wf(), self.source == old(self).source, self.start == old(self).start, self.parantheses == old(self).parantheses, self.current >= old(self).current
     //@  loop 0 decreases self.source.blen() - self.current
@@ -286,8 +346,10 @@ impl Scanner {
     //@  at body.start broadcast use axiom_bytes_len; proof { lemma_ascii_run_boundaries(self.source, self.start as int, self.current as int); }
     //@end
 
-    //@fn file=yarel/src/scanner.rs path=Scanner::identifier ret=r
+    //@fn file=yarel/src/scanner.rs path=Scanner::identifier ret=r props=C03,C17
     //@  ensures !(r.kind is Eof)
+    //@  ensures @an_identifier_contains_no_line_feed old(self).lines_ok() ==> final(self).lines_ok()
+    //@  loop 0 invariant old(self).lines_ok() ==> self.lines_ok()
     //@  requires old(self).wf(), old(self).ascii_token()
     //@  ensures final(self).wf(), old(self).cursor_only(final(self))
     //@  loop 0 invariant self.wf(), old(self).cursor_only(self), self.ascii_token()
@@ -295,8 +357,11 @@ impl Scanner {
     //@  at loop0.start broadcast use axiom_bytes_len;
     //@end
 
-    //@fn file=yarel/src/scanner.rs path=Scanner::number ret=r
+    //@fn file=yarel/src/scanner.rs path=Scanner::number ret=r props=C03,C17
     //@  ensures r.kind is Number
+    //@  ensures @a_number_contains_no_line_feed old(self).lines_ok() ==> final(self).lines_ok()
+    //@  loop 0 invariant old(self).lines_ok() ==> self.lines_ok()
+    //@  loop 1 invariant old(self).lines_ok() ==> self.lines_ok()
     //@  rewrite R29 R28
     //@  requires old(self).wf()
     //@  ensures final(self).wf(), old(self).cursor_only(final(self))
@@ -310,7 +375,10 @@ impl Scanner {
 
     // \xHH, \uHHHH, \UHHHHHHHH: reads 2 * num_bytes characters one at a time (whatever their width); an error leaves the
     // cursor on a boundary at or behind where it was
-    //@fn file=yarel/src/scanner.rs path=Scanner::read_escaped_bytes ret=r
+    //@fn file=yarel/src/scanner.rs path=Scanner::read_escaped_bytes ret=r props=C03,C17
+    //@  ensures @a_line_feed_read_as_a_hex_digit_is_still_counted old(self).lines_ok() ==> final(self).lines_ok()
+    //@  loop 0 invariant old(self).lines_ok() ==> self.lines_ok()
+    //@  loop 1 invariant old(self).lines_ok() ==> self.lines_ok()
     //@  rewrite R8 R29 R28 R30
     //@  subst "str_slice(self.source," => "str_slice(&self.source,"
     //@  subst "u8::from_str_radix(" => "parse_u8_radix("
@@ -319,14 +387,17 @@ impl Scanner {
     //@  subst "String::from_utf8(bytes)" => "owned_from_utf8(bytes)"
     //@  sig "Result<String, ()>" => "Result<OwnedStr, ()>"
     //@  requires old(self).wf(), 1 <= num_bytes <= 4
-    //@  ensures final(self).wf(), old(self).cursor_only(final(self))
-    //@  loop 0 invariant self.wf(), old(self).cursor_only(self), bytes@.len() == _k, 1 <= num_bytes <= 4
-    //@  loop 1 invariant self.wf(), old(self).cursor_only(self)
+    //@  ensures final(self).wf(), old(self).cursor_and_line_only(final(self))
+    //@  loop 0 invariant self.wf(), old(self).cursor_and_line_only(self), bytes@.len() == _k, 1 <= num_bytes <= 4
+    //@  loop 1 invariant self.wf(), old(self).cursor_and_line_only(self)
+    //@  at loop1.start broadcast use axiom_bytes_len;
     //@end
 
     // A string literal or the continuation of one after `${ … }`
-    //@fn file=yarel/src/scanner.rs path=Scanner::string ret=r
+    //@fn file=yarel/src/scanner.rs path=Scanner::string ret=r props=C03,C17
     //@  ensures !(r.kind is Eof)
+    //@  ensures @every_line_feed_inside_a_string_literal_is_counted old(self).lines_ok() ==> final(self).lines_ok()
+    //@  loop 0 invariant old(self).lines_ok() ==> self.lines_ok()
     //@  rewrite R11 R27 R29 R28
     //@  subst "let mut buffer = String::new();" => "let mut buffer = OwnedStr::new();"
     //@  requires old(self).wf()
@@ -338,7 +409,8 @@ impl Scanner {
 
     // One token. Progress: the cursor never moves backwards, and a token other than Eof consumed at least one character
     // (so a caller that stops at Eof terminates).
-    //@fn file=yarel/src/scanner.rs path=Scanner::scan_token ret=r
+    //@fn file=yarel/src/scanner.rs path=Scanner::scan_token ret=r props=C03,C17
+    //@  ensures @the_line_counter_counts_exactly_the_line_feeds_consumed old(self).lines_ok() ==> final(self).lines_ok()
     //@  subst "let msg = format!(\"Unexpected character: '{}'.\", c);" => "let msg = verif_format_lit();"
     //@  subst "self.error_token(msg.as_str())" => "self.error_token(msg)"
     //@  rewrite R27 R29 R28
